@@ -47,7 +47,9 @@ def slice_nal(r, ntype, first, poc_lsb, slice_type=1, size=40, layer=0):
         bits += "0"                      # no_output_of_prior_pics_flag
     bits += "1"                          # ue(pps_id = 0)
     if not first:
-        bits += "0" * 9                  # slice_segment_address (value irrelevant for indexing)
+        # asset PPS/SPS: 4 bits between pps_id and slice_type for a non-first slice (dependent flag +
+        # 3 address bits, or 4 address bits; determined empirically against hevc_parser); all zero
+        bits += "0" * 4
     st = slice_type + 1
     lz = st.bit_length() - 1
     bits += "0" * lz + format(st, "b")   # ue(slice_type)
